@@ -101,6 +101,16 @@ func init() {
 			return kvmc.CompactionOracle(w, path)
 		}
 		runKV(c, plans, oracle, multiTable)
+		// compaction moves the entries of a table in batches: a grid of tables whose number of
+		// surviving entries walks across the batch size (one entry, 999 .. 1002, 1999 .. 2003, 3003)
+		bc := kvmc.BatchCases()
+		for _, cs := range bc {
+			for _, f := range kvmc.RunBatch(cs) {
+				c.Violate(fmt.Sprintf("%s/%s/live=%d/raw=%v", c.ID, f.Key, cs.Live, cs.Raw), cs.String()+": "+f.What, cs)
+			}
+		}
+		c.Cov["compaction_batch_grid"] = fmt.Sprintf("%d cases: one table with L surviving entries for L in {1, 999, 1000, 1001, 1002, 1999, 2000, 2001, 2002, 2003, 3003} plus enough deleted entries to pass the compaction threshold, written with Put or PutRaw, deleted entries first or interleaved; Compaction() until done (bounded), then every surviving entry is read back and the entry count compared", len(bc))
+		c.Cov["rule"] = c.Cov["rule"].(string) + "; plus the compaction batch grid (see compaction_batch_grid)"
 		c.Assumef("hkeys are chosen by the driver (1..3): hash collisions between different keys are out of scope")
 		c.Assumef("canonical form drops last-access stamps, unreachable bytes, absolute coefficients (gaps kept) and absolute timestamps (per-key order kept)")
 	}})
